@@ -152,6 +152,7 @@ impl<'r> B<'r> {
                     let mut cfg = GenCfg::default_for(self.rng);
                     cfg.max_funcs = 3;
                     cfg.max_stmts = 8;
+                    cfg.avoid_exnref = true;
                     if self.rng.chance(1, 5) {
                         cfg.max_funcs = 0;
                         cfg.min_funcs = 0;
